@@ -243,13 +243,27 @@ _STATE = {"root": None, "owner": None}
 
 def setup_root():
     """Parent, once: $TMPDIR/verif-c17-<pid>-xxxx/, removed at interpreter exit (covers
-    histories killed by the watchdog, whose own finally block cannot run)."""
+    histories killed by the watchdog, whose own finally block cannot run) and on SIGTERM.
+    Roots left behind by a SIGKILLed earlier run (owner pid gone) are swept here."""
     if _STATE["root"] is None:
         base = os.environ.get("TMPDIR") or "/tmp"
+        for name in sorted(os.listdir(base)):
+            m = re.match(r"^verif-c17-(\d+)-", name)
+            if m and not os.path.exists("/proc/%s" % m.group(1)):
+                shutil.rmtree(os.path.join(base, name), ignore_errors=True)
         _STATE["root"] = tempfile.mkdtemp(prefix="verif-c17-%d-" % os.getpid(), dir=base)
         _STATE["owner"] = os.getpid()
         atexit.register(_cleanup_root)
+        if signal.getsignal(signal.SIGTERM) == signal.SIG_DFL:
+            signal.signal(signal.SIGTERM, _on_term)
     return _STATE["root"]
+
+
+def _on_term(signum, frame):
+    if _STATE["owner"] == os.getpid():
+        _cleanup_root()
+    signal.signal(signal.SIGTERM, signal.SIG_DFL)
+    os.kill(os.getpid(), signal.SIGTERM)
 
 
 def _cleanup_root():
